@@ -2,7 +2,9 @@ package tbldrv
 
 import (
 	"context"
+	"crypto/x509"
 	"encoding/json"
+	"encoding/pem"
 	"fmt"
 	"io"
 	"net/http"
@@ -97,6 +99,11 @@ type isoWorld struct {
 	ks     oidc.KeySet
 	ksDown atomic.Bool
 	ksTok  map[string]string
+	// two providers configured with the same absolute UserFormURL
+	provUF [2]http.Handler
+	// a relying party with a JWT-profile signer, and endpoint parameters the caller owns
+	rpJWT  rp.RelyingParty
+	params url.Values
 	// a provider whose signing key does not fit the algorithm it announces
 	provBroken  http.Handler
 	storeBroken *modelstore.Store
@@ -306,9 +313,39 @@ func isoSetup() {
 	if iso.provBroken, _, err = opdrv.BuildProvider(iso.storeBroken, opdrv.DefaultCfg("P")); err != nil {
 		panic(err)
 	}
+	for i := range iso.provUF {
+		p, err := op.NewProvider(&op.Config{CryptoKey: opdrv.CryptoKey, DeviceAuthorization: op.DeviceAuthorizationConfig{Lifetime: 5 * time.Minute, PollInterval: 5 * time.Second,
+			UserFormURL: isoUserForm, UserCode: op.UserCodeBase20}}, modelstore.WithCaps(iso.store, true, true, true), op.StaticIssuer(opdrv.Issuer))
+		if err != nil {
+			panic(err)
+		}
+		iso.provUF[i] = p
+	}
+	kj := opdrv.ClientKey("cj")
+	kjDER, _ := x509.MarshalPKCS8PrivateKey(kj.Priv)
+	iso.rpJWT, err = rp.NewRelyingPartyOIDC(ctx, isoOP, "cj", "", "https://rp.example.test/cb", []string{"openid"}, rp.WithHTTPClient(iso.caller),
+		rp.WithJWTProfile(rp.SignerFromKeyAndKeyID(pem.EncodeToMemory(&pem.Block{Type: "PRIVATE KEY", Bytes: kjDER}), kj.KID)))
+	if err != nil {
+		panic(err)
+	}
+	iso.params = url.Values{"resource": {"https://api.example.test"}}
 	iso.claims0 = append([]string(nil), op.DefaultSupportedClaims...)
 	iso.scopes0 = append([]string(nil), op.DefaultSupportedScopes...)
 	iso.pristine = isoSnapshot()
+}
+
+const isoUserForm = "https://login.example.test/device/form"
+
+// ufVerificationURI: a device authorization at provider i (configured with the absolute UserFormURL); returns its verification_uri.
+func ufVerificationURI(i int) string {
+	r := isoReq(iso.provUF[i], http.MethodPost, "/device_authorization", url.Values{"scope": {"openid"}}, "cd")
+	var da struct {
+		VerificationURI string `json:"verification_uri"`
+	}
+	if json.Unmarshal([]byte(r.Body), &da) != nil || da.VerificationURI == "" {
+		return "no response: " + r.Body
+	}
+	return da.VerificationURI
 }
 
 func signNoKid(payload []byte, key *modelstore.SignKey) string {
@@ -416,15 +453,18 @@ func isoSnapshot() map[string]string {
 	s["sharedKeySet.servesFromCache"] = ksVerify(iso.ksTok["good"])
 	iso.ksDown.Store(false)
 	s["packageLevelErrors"] = pkgErrors()
+	s["userFormProviderB.verificationURI"] = ufVerificationURI(1)
+	s["callerEndpointParams"] = iso.params.Encode()
 	return s
 }
 
 // isoHealthy: cells with a value that must hold at any time, whatever ran before
 var isoHealthy = map[string]string{"dynProvider.tenantA.ownHint": "accepted", "dynProvider.tenantB.ownHint": "accepted", "dynProvider.tenantB.foreignHint": "refused",
 	"providerA.tokenSignature": "ownKeys", "providerB.tokenSignature": "ownKeys",
-	"callerInterceptorChain": "first,second,third", "routerA2.interceptorOrder": "first>second>third", "sharedKeySet.servesFromCache": "ok"}
+	"callerInterceptorChain": "first,second,third", "routerA2.interceptorOrder": "first>second>third", "sharedKeySet.servesFromCache": "ok", "userFormProviderB.verificationURI": isoUserForm}
 
 func isoRestore() {
+	iso.params = url.Values{"resource": {"https://api.example.test"}}
 	*op.DefaultEndpoints = iso.defaultEPs
 	for ep, v := range iso.epValues {
 		*ep = v
@@ -547,6 +587,12 @@ func isoExec(name string) {
 		ksVerify(iso.ksTok["unknownKid"])
 	case name == "keySet.verify(noKid)":
 		ksVerify(iso.ksTok["noKid"])
+	case name == "userFormProviderA.deviceAuthorization":
+		ufVerificationURI(0)
+	case name == "userFormProviderB.deviceAuthorization":
+		ufVerificationURI(1)
+	case name == "rp.ClientCredentials(jwtProfileRP, callerParams)":
+		rp.ClientCredentials(ctx, iso.rpJWT, iso.params)
 	case name == "brokenSignerProvider.implicitCallback":
 		r := isoReq(iso.provBroken, http.MethodGet, "/authorize", url.Values{"client_id": {"cx"}, "redirect_uri": {opdrv.ConcreteURI["ucx"]}, "response_type": {"id_token token"},
 			"scope": {"openid"}, "state": {"state-of-another-user"}, "nonce": {"n"}}, "")
